@@ -79,8 +79,7 @@ function with the broken one. UNDECIDED entries are exit 2 with the reason in th
   (`b5_C04_2`, `b5_C13_2`), `BTreeMap::values` (`orig_D6`). A specification of `zip(..).all(eq)` as a stand-in was
   considered and rejected: a *correct* in-place comparison would need an injectivity lemma the hints cannot supply at an
   unknown place, so the stand-in would have to stay under the novelty guard and decide nothing.
-* *library functions without a usable contract*: `BTreeMap::entry` (`b3_C08_1`, `b5_C08_2`), `Option::filter` with a
-  fresh closure (`b5_C08_1`), `try_into` on slices (`b3_C17_2`), `<[u8]>::strip_prefix` (`b4_C10_1`),
+* *library functions without a usable contract*: `Option::filter` with a fresh closure (`b5_C08_1`), `try_into` on slices (`b3_C17_2`), `<[u8]>::strip_prefix` (`b4_C10_1`),
   `eq_ignore_ascii_case` + `str` slicing (`b5_C03_1`), a `&mut [u8]` used as `BufMut` (`b5_C03_2`), a second base64 engine
   and a fresh closure (`b5_C12_1`), copying into a fixed array with `min`/range slicing (`b3_C01_2`), a helper without
   contract (`orig_D5`), `insert_raw_rlp` restructured beyond the hints (`b3_C15_2`).
@@ -131,6 +130,9 @@ miss or alarm, or a recurring family; every batch was re-run afterwards):
   named and lower-hex holes, N16 rewrites the `let [a, b, .., y, z] = self.raw;` all but one of the authors used, and the
   proof of `fmt` no longer hangs on a statement in the middle of the body; the three correct rewrites `G1`..`G3` verify.
   **white-space tolerance in `from_str`** (`b2_C12_2`) -> `str::trim*` specified (T18).
+  **`entry(key).or_insert*(..)` in `Builder::add_public_key`** (`b3_C08_1`, `b5_C08_2`: an existing entry is kept, so a builder
+  used twice, or given a `secp256k1` value by hand, yields a record with the wrong key) -> N17 writes the statement as "insert
+  unless present"; the same value stored with a plain `insert` verifies (tried).
   Two families stay out of reach and are listed above: `compare_content` via `zip(..).all(..)` (five authors) and the
   `NodeId` deserialiser's prefix handling (three).
 * the campaign itself runs six checks at a time: pruning of the result cache deleted an entry another run was about to read
